@@ -545,7 +545,8 @@ fn configure_build(
 
     // build application file name
     let outfile = Utf8PathBuf::from(
-        nested_env::expand("${outfile}", &global_env_flattened, IfMissing::Empty).unwrap(),
+        nested_env::expand("${outfile}", &global_env_flattened, IfMissing::Empty)
+            .context("while expanding \"${outfile}\"")?,
     );
 
     let mut objdir = build_dir.clone();
@@ -572,10 +573,10 @@ fn configure_build(
             }
         })
         .map(|(module_name, module)| {
-            let (module_env, module_build_deps) = module.build_env(&global_env, &resolved);
-            (*module_name, (*module, module_env, module_build_deps))
+            let (module_env, module_build_deps) = module.build_env(&global_env, &resolved)?;
+            Ok((*module_name, (*module, module_env, module_build_deps)))
         })
-        .collect();
+        .collect::<Result<_>>()?;
 
     // generate build *order* dependencies
     // for this, a DepGraph is used, with a "root" node from which the build
@@ -685,7 +686,8 @@ fn configure_build(
             // the so-far stored `download_dirs`. Any dependency of this module
             // would have stored it's srcdir there.
             let srcdir = Utf8PathBuf::from(
-                nested_env::expand_eval(srcdir, &flattened_env, IfMissing::Ignore).unwrap(),
+                nested_env::expand_eval(srcdir, &flattened_env, IfMissing::Ignore)
+                    .with_context(|| format!("module \"{}\": srcdir \"{}\"", module.name, srcdir))?,
             );
             if let Some(tagfile) = download_dirs.get_containing_path(&srcdir) {
                 src_tagfile = Some(tagfile);
@@ -724,13 +726,11 @@ fn configure_build(
                 let mut imported_build_deps = IndexSet::new();
 
                 for dep in module_build_deps {
-                    imported_build_deps.extend(
-                        module_build_dep_files
-                            .get(&dep.name)
-                            .unwrap()
-                            .iter()
-                            .cloned(),
-                    );
+                    // a build dependency that exports no files (no download, no custom build,
+                    // no declared files) just has nothing to wait for
+                    if let Some(dep_files) = module_build_dep_files.get(&dep.name) {
+                        imported_build_deps.extend(dep_files.iter().cloned());
+                    }
                 }
                 Some(imported_build_deps)
             } else {
@@ -786,8 +786,8 @@ fn configure_build(
             //
             // ... becomes `echo foo && echo bar` as ninja build command.
             let build_cmd = &build.cmd.join(" && ");
-            let expanded =
-                nested_env::expand_eval(build_cmd, &flattened_env, IfMissing::Empty).unwrap();
+            let expanded = nested_env::expand_eval(build_cmd, &flattened_env, IfMissing::Empty)
+                .with_context(|| format!("module \"{}\": build cmd", module.name))?;
 
             // create custom build ninja rule
             let rule = NinjaRuleBuilder::default()
@@ -808,28 +808,28 @@ fn configure_build(
                     // 1. determine full file path (relative to project root)
                     let mut srcpath = srcdir.clone();
                     srcpath.push(source);
-                    Utf8PathBuf::from(
-                        nested_env::expand_eval(srcpath, &flattened_env, IfMissing::Empty).unwrap(),
-                    )
+                    nested_env::expand_eval(srcpath, &flattened_env, IfMissing::Empty)
+                        .map(Utf8PathBuf::from)
+                        .with_context(|| {
+                            format!("module \"{}\": source \"{}\"", module.name, source)
+                        })
                 })
-                .collect_vec();
+                .collect::<Result<Vec<_>>>()?;
 
             // Vec<Utf8PathBuf> -> Cow<&Utf8Path>
             let sources = sources.iter().map(|x| Cow::from(x.as_ref())).collect_vec();
 
             let mut hasher = DefaultHasher::new();
             // collect any specified outs
-            let outs = build.out.as_ref().map_or_else(std::vec::Vec::new, |outs| {
-                outs.iter()
-                    .map(|out| {
-                        let out = Utf8PathBuf::from(
-                            nested_env::expand_eval(out, &flattened_env, IfMissing::Empty).unwrap(),
-                        );
-                        out.hash(&mut hasher);
-                        Cow::from(out)
-                    })
-                    .collect_vec()
-            });
+            let mut outs = Vec::new();
+            for out in build.out.iter().flatten() {
+                let out = Utf8PathBuf::from(
+                    nested_env::expand_eval(out, &flattened_env, IfMissing::Empty)
+                        .with_context(|| format!("module \"{}\": out \"{}\"", module.name, out))?,
+                );
+                out.hash(&mut hasher);
+                outs.push(Cow::from(out));
+            }
             let outs_hash = hasher.finish();
 
             // 4. render ninja "build:" snippet and add to this build's
@@ -908,15 +908,28 @@ fn configure_build(
 
                 // expand variables in source path
                 let srcpath = Utf8PathBuf::from(
-                    nested_env::expand_eval(srcpath, &flattened_env, IfMissing::Empty).unwrap(),
+                    nested_env::expand_eval(srcpath, &flattened_env, IfMissing::Empty)
+                        .with_context(|| {
+                            format!("module \"{}\": source \"{}\"", module.name, source)
+                        })?,
                 );
 
                 // 2. find ninja rule by lookup of the source file's extension
-                let ext = srcpath.extension().unwrap();
-
-                let rule = rules.get(ext).unwrap();
-
-                let ninja_rule = module_rules.get(ext).unwrap();
+                // (the rules were collected by the extension of the *unexpanded* source)
+                let rule_and_ninja_rule = srcpath
+                    .extension()
+                    .and_then(|ext| Some((rules.get(ext)?, module_rules.get(ext)?)));
+                let (rule, ninja_rule) = rule_and_ninja_rule.ok_or_else(|| {
+                    anyhow!(
+                        "module \"{}\": no rule for expanded source \"{}\" (from \"{}\")",
+                        module.name,
+                        srcpath,
+                        source
+                    )
+                })?;
+                let rule_out = rule.out.as_ref().ok_or_else(|| {
+                    anyhow!("rule \"{}\" has no \"out\" extension configured", rule.name)
+                })?;
                 let rule_hash = ninja_rule.get_hash(None);
 
                 // 3. determine output path (e.g., name of C object file)
@@ -924,10 +937,10 @@ fn configure_build(
                     &format!(
                         "{}.{}",
                         rule_hash ^ build_deps_hash,
-                        &rule.out.as_ref().unwrap()
+                        rule_out
                     )
                 } else {
-                    rule.out.as_ref().unwrap()
+                    rule_out
                 };
 
                 let out = srcpath.with_extension(out_ext);
